@@ -5,8 +5,8 @@ package main
 import (
 	"crypto/sha256"
 	"encoding/binary"
-	"encoding/json"
 	"encoding/hex"
+	"encoding/json"
 	"flag"
 	"fmt"
 	"math/rand"
@@ -52,6 +52,7 @@ type event struct {
 	RawSame bool         `json:"rawsame"`
 	RootOK  bool         `json:"rootok"`
 	Route   string       `json:"route,omitempty"`
+	NoModel bool         `json:"nomodel"`
 }
 
 var (
@@ -142,6 +143,8 @@ func (k *keyObj) emitState(e *event) {
 
 // newKey wraps a freshly constructed object and emits KeyGen. tree may be shared
 // by objects of the same family (same seed and parameters).
+var noModel bool // tall trees: observables only
+
 func newKey(x *xmss.XMSS, fam int, tree *xproj.Tree, route string, tr *trace.Buf) *keyObj {
 	k := &keyObj{x: x, id: nextKey(), fam: fam, h: int(x.GetHeight()), tr: tr}
 	s := xmss.VerifSnapshot(x)
@@ -152,6 +155,7 @@ func newKey(x *xmss.XMSS, fam int, tree *xproj.Tree, route string, tr *trace.Buf
 	k.tree = tree
 	e := k.base("KeyGen")
 	e.Route = route
+	e.NoModel = noModel
 	e.RootOK = string(x.GetRoot()) == string(tree.Root())
 	k.emitState(&e)
 	tr.Emit(e)
@@ -373,6 +377,45 @@ func jumps(h int, hf xmss.HashFunction, seed [48]uint8, mode string, stride int,
 	for _, b := range bufs {
 		tr.Append(b)
 	}
+	k.drop(true)
+	return sigs
+}
+
+// tall: a tall tree (synthetic leaves) visited around the places where the 4-byte index carries
+// (2^8, 2^16) and at the end of its life; observables only (nomodel).
+func tall(h int, hf xmss.HashFunction, seed [48]uint8, r *rand.Rand, tr *trace.Buf) int {
+	noModel = true
+	defer func() { noModel = false }()
+	x := xmss.NewXMSSFromSeed(seed, uint8(h), hf, common.SHA256_2X)
+	k := newKey(x, nextFam(), nil, "seed", tr)
+	n := 1 << uint(h)
+	sigs := 0
+	stops := []int{0, 253, 1<<16 - 3, 1<<16 + 250, n/2 - 2, n - 3}
+	m := 0
+	for _, s := range stops {
+		if s < 0 || s >= n || s < int(k.x.GetIndex()) {
+			continue
+		}
+		k.setIndex(uint32(s))
+		for q := 0; q < 6 && int(k.x.GetIndex()) < n; q++ {
+			if _, rr := k.sign(m); rr == "ok" {
+				sigs++
+			}
+			m++
+		}
+	}
+	// exhausted (or nearly): the borders
+	for int(k.x.GetIndex()) < n {
+		if _, rr := k.sign(m); rr == "ok" {
+			sigs++
+		}
+		m++
+	}
+	k.sign(m)
+	k.setIndex(uint32(n))
+	k.setIndex(uint32(n - 1))
+	k.setIndex(0)
+	k.sign(m + 1)
 	k.drop(true)
 	return sigs
 }
@@ -672,6 +715,8 @@ func main() {
 				}
 			case "rebuild":
 				st.Signatures += rebuild(*h, hf, seedFrom(r), *window, *crashEvery, r, tr)
+			case "tall":
+				st.Signatures += tall(*h, hf, seedFrom(r), r, tr)
 			case "plan":
 				st.Signatures += plan(*h, hf, *planFile, r, tr)
 			default:
